@@ -81,7 +81,9 @@ class Ref:
         for name, kind, data in case.get("udqs", []):
             self.udq[name] = data if kind == "F" else dict(data)
         self.tk = case["target"][0]       # F / W / G
-        self.hazards = set()              # shapes of known findings present in this evaluation (for keys only)
+        # shapes of findings this check has reported (all but the listed KNOWN_KEYS are fixed in /repo by now):
+        # used for the evidence histogram and, for keys still listed as known, to attribute a mismatch
+        self.hazards = set()
         self.notes = set()
         self.maxabs = 0.0
 
@@ -169,7 +171,10 @@ class Ref:
                 raise GenBug("reduction of a scalar is not generated")
             d = [x for x in a.v if x is not None]
             if not d:
-                self.hazards.add("empty-reduction-throws")
+                # The statement does not define the value of a reduction over no defined element: the
+                # reference continues with "undefined", the oracle accepts a refusal (exception) and does not
+                # assert values that were computed from it.
+                self.notes.add("empty-reduction")
                 return Val("S", [None])
             if f == "SUM":
                 r = math.fsum(d)
@@ -847,9 +852,11 @@ def any_case():
 
 
 # ------------------------------------------------------------------ the check
-KNOWN_ORDER = ["assign-group-throws", "update-next-repeats", "pow-mul-precedence", "pow-scalar-set", "pow-undefined-rhs", "cmp-eps-zero-lhs-throws",
-               "cmp-eps-negative-lhs", "undef-function-throws", "undefined-scalar-broadcast-throws",
-               "empty-reduction-throws"]
+# Only findings that are still open may absorb a mismatch.  The shapes of the fixed findings (pow-mul-precedence,
+# pow-scalar-set, pow-undefined-rhs, cmp-eps-zero-lhs-throws, cmp-eps-negative-lhs, undef-function-throws,
+# undefined-scalar-broadcast-throws, assign-group-throws) are still counted in the evidence ("shape:...") but are
+# checked strictly.
+KNOWN_ORDER = ["update-next-repeats"]
 
 
 def close(exp, got, scale):
@@ -895,8 +902,12 @@ class C17(Check):
         "re-defined quantities is not stated); UPDATE OFF/NEXT only for quantities DEFINEd at an earlier step; a "
         "re-DEFINE of a switched-off quantity is followed by an explicit UPDATE ON; a partial ASSIGN is generated "
         "only while 'replace the selected elements' and 'replay all ASSIGN records' mean the same",
-        "a mismatch on an expression/history that contains the shape of a known finding is attributed to that "
-        "finding (suppressed while it is listed as known); such cases are 10-15 % of the evaluations",
+        "a reduction whose argument has no defined element at evaluation time has no value defined by the "
+        "statement: an exception is accepted, a returned value is not asserted (part A, counted by label); such "
+        "histories are discarded (part B)",
+        "a mismatch on a history in which known finding 'update-next-repeats' can show (a used-up UPDATE NEXT and a "
+        "later report step owning a fresh UDQConfig) is attributed to it while it is listed as known (~4 % of the "
+        "histories); the shapes of the eight findings fixed in /repo are checked strictly",
     ]
     EXAMPLES = {"quick": 3000, "thorough": 40000}
     MIN_EVALS = {"quick": 30000, "thorough": 400000}
@@ -910,8 +921,9 @@ class C17(Check):
                   "ASSIGN/DEFINE/UPDATE records are compared step by step with a reference state machine.")
     LEVEL_NOTE = ("Sampled, not exhaustive: ~48 000 (quick) / ~640 000 (thorough) cases per run.  Trusted: the Python "
                   "reference evaluator / state machine as a reading of the statement; the probe's observation of "
-                  "UDQSet / UDQState / SummaryState through public getters.  Ten genuine deviations found by this "
-                  "check are listed as known; expressions containing their shapes are not decided further.")
+                  "UDQSet / UDQState / SummaryState through public getters.  Of the nine genuine deviations found "
+                  "by this check eight are fixed in /repo and checked strictly; 'update-next-repeats' is listed as "
+                  "known and histories in which it can show are not decided further.")
     TECHNIQUE = ("property-based testing: Hypothesis-driven grammar generator (single byte-string entropy source), "
                  "differential comparison with a reference evaluator and a reference state machine")
 
@@ -970,9 +982,11 @@ class C17(Check):
         if undef_scalar_mix:
             labels.append("undefined-element-with-scalar")
         for h in ref.hazards:
-            labels.append("known-shape:" + h)
+            labels.append("shape:" + h)
         if pow_then_mul(toks):
-            labels.append("known-shape:pow-mul-precedence")
+            labels.append("shape:pow-mul-precedence")
+        if "empty-reduction" in ref.notes:
+            labels.append("empty-reduction")
         nontriv = (nbin[0] >= 3 and len(ranks) >= 2) or undef_scalar_mix
         if nontriv:
             labels.append("nontrivial")
@@ -1051,7 +1065,7 @@ class C17(Check):
                 nontriv = True
         try:
             for h in self.hist_reference(case)[1]:
-                labels.append("B:known-shape:" + h)
+                labels.append(("B:known-shape:" if h in KNOWN_ORDER else "B:shape:") + h)
         except Discard:
             pass
         except Exception:
@@ -1181,6 +1195,8 @@ class C17(Check):
                     ref = Ref(pc)
                     res = ref.result(defs[q])
                     hazards |= ref.hazards
+                    if "empty-reduction" in ref.notes:
+                        raise Discard("reduction over no defined element: value not defined by the statement")
                     vals[q] = dict(zip(res["names"], res["vals"]))
                     if status[q] == "NEXT":
                         status[q] = "OFF"
@@ -1198,7 +1214,7 @@ class C17(Check):
                            observe=[[q, q[0]] for q in qs])
         except LibError as e:
             return {"rule": "library throws while building the schedule / evaluating a valid UDQ history",
-                    "detail": {"deck": deck, "exception": str(e)[:300], "known_shapes": sorted(hazards)}, "key": key}
+                    "detail": {"deck": deck, "exception": str(e)[:300], "shapes": sorted(hazards)}, "key": key}
         if len(r["steps"]) != len(case["steps"]):
             return {"rule": "number of report steps", "detail": [len(r["steps"]), len(case["steps"])], "key": None}
         for si, (got, want) in enumerate(zip(r["steps"], exp)):
@@ -1230,7 +1246,7 @@ class C17(Check):
                                         "ASSIGN/DEFINE/UPDATE state machine",
                                 "detail": {"deck": deck, "step": si, "quantity": q, "element": nme, "expected": ev,
                                            "udq_state": gv, "summary_state": None if sv is None else hexf(sv),
-                                           "known_shapes": sorted(hazards)},
+                                           "shapes": sorted(hazards)},
                                 "key": key}
         return None
 
@@ -1262,12 +1278,24 @@ class C17(Check):
                 # union operator between a scalar and a set: the statement does not say that it broadcasts
                 ctx.label("accepted-exception:uop-scalar-set")
                 return None
+            if "empty-reduction" in ref.notes:
+                # reduction over a set without defined elements: a refusal is as good as "undefined"
+                ctx.label("accepted-exception:empty-reduction")
+                return None
             return {"rule": "library throws on an expression that the documented grammar and semantics cover",
                     "detail": {"expr": expr, "data": data, "exception": str(e)[:300], "expected": exp,
-                               "known_shapes": sorted(hazards)},
+                               "shapes": sorted(hazards)},
                     "key": key}
         got_names = [e[0] for e in r["elems"]]
         got = {e[0]: (hexf(e[2]) if e[1] else None) for e in r["elems"]}
+        if "empty-reduction" in ref.notes:
+            # the library produced a value although a reduction had nothing to reduce: compared with the
+            # reference's "undefined propagates" reading, but a difference is not asserted
+            same = sorted(got_names) == sorted(exp["names"]) and all(
+                (ev is None and got[n] is None) or (ev is not None and got[n] is not None and close(ev, got[n], ref.maxabs))
+                for n, ev in zip(exp["names"], exp["vals"]))
+            ctx.label("empty-reduction:value-returned:" + ("same-as-undefined-reading" if same else "differs-unasserted"))
+            return None
         if sorted(got_names) != sorted(exp["names"]):
             return {"rule": "result set has the wrong elements",
                     "detail": {"expr": expr, "got": got_names, "expected": exp["names"]}, "key": key}
@@ -1279,6 +1307,6 @@ class C17(Check):
                                 "/ broadcasting / undefined propagation / function definition)",
                         "detail": {"expr": expr, "data": data, "element": nme, "expected": ev, "got": gv,
                                    "all_expected": dict(zip(exp["names"], exp["vals"])), "all_got": got,
-                                   "known_shapes": sorted(hazards)},
+                                   "shapes": sorted(hazards)},
                         "key": key}
         return None
